@@ -566,7 +566,10 @@ impl Value {
                                     .unwrap_or(Value::Null)
                                     .into(),
                                 (Value::String(str), Value::Int(idx)) => {
-                                    match str.get(idx as usize..(idx + 1) as usize) {
+                                    match usize::try_from(idx)
+                                        .ok()
+                                        .and_then(|i| str.get(i..i.checked_add(1)?))
+                                    {
                                         None => Ok(Value::Null),
                                         Some(str) => Ok(Value::String(str.to_string().into())),
                                     }
